@@ -553,3 +553,119 @@ Example C03_gen_example :
 Proof. vm_compute. first [exact I | reflexivity]. Qed.
 
 End GenAgreeMeasures_C03.
+
+(* ==== GenAgree (subtotal strategies): what matrix/subtotals.py and stripe/insertion.py SAY NOW ==== *)
+(* Appended by work/translator3 (statements generated from the lemmas of Proofs/GenAgreeSubtotalsWave.v by
+   work/translator3/gen_lemmas.py).  Gen/SubtotalsSrc.v / Gen/StripeInsertionSrc.v are rewritten from the
+   source on every check; [seval] (Base/SubtotalExp.v) is the meaning of a translated member;
+   [None] = the translator could not read the member (tied by the correspondence only). *)
+From Coq Require String.
+From CC Require Base.SubtotalExp Base.MeasureExp Model.Subtotals Model.Proportions Model.Variance
+     Gen.SubtotalsSrc Gen.StripeInsertionSrc Proofs.GenAgreeMeasTac Proofs.GenAgreeSubTac Proofs.GenAgreeSubtotalsWave.
+Section GenAgreeSubtotals_C03.   (* scopes and imports below end with the section *)
+Import Coq.Strings.String CC.Base.SubtotalExp CC.Base.MeasureExp CC.Model.Subtotals CC.Model.Proportions
+       CC.Model.Variance CC.Gen.SubtotalsSrc CC.Gen.StripeInsertionSrc CC.Proofs.GenAgreeMeasTac
+       CC.Proofs.GenAgreeSubTac CC.Proofs.GenAgreeSubtotalsWave.
+Import Coq.Lists.List.ListNotations CC.Base.XQ CC.Base.ListX.
+Local Close Scope Q_scope.
+Local Open Scope string_scope.
+Local Open Scope nat_scope.
+
+(* matrix WaveDiffSubtotal: the categorical-date rule for one subtotal column / row ([wave_col_cell] /
+   [wave_row_cell]: one wave minus one wave = difference of the two percentages, several terms = NaN,
+   otherwise the default), the zip with the default insertions, and the classmethods = [wave_std] *)
+Theorem C03_gen_WaveDiffSubtotal :
+  (match src_WaveDiffSubtotal__multiple_subtrahends_or_addends with
+  | Some e => forall bases counts nr nc dflts rsubs csubs rd cd s dflt,
+      keval (senv_wave bases counts nr nc dflts rsubs csubs rd cd s dflt) e = multiple_terms s
+  | None => True
+  end) /\
+  (match src_WaveDiffSubtotal__subtotal_column with
+  | Some e => forall bases counts nr nc dflts rsubs csubs rd cd s d,
+      sub_in nc s ->
+      sagrees_vec (seval (senv_wave bases counts nr nc dflts rsubs csubs rd cd s (SVV (ARange nr) d)) e) nr (fun i => wave_col_cell bases counts cd s (d i) i)
+  | None => True
+  end) /\
+  (match src_WaveDiffSubtotal__subtotal_row with
+  | Some e => forall bases counts nr nc dflts rsubs csubs rd cd s d,
+      sub_in nr s ->
+      sagrees_vec (seval (senv_wave bases counts nr nc dflts rsubs csubs rd cd s (SVV (ARange nc) d)) e) nc (fun j => wave_row_cell bases counts rd s (d j) j)
+  | None => True
+  end) /\
+  (match src_WaveDiffSubtotal__subtotal_columns with
+  | Some e => forall bases counts nr nc rsubs csubs rd cd D,
+      subs_in nc csubs ->
+      sagrees_mat (seval (senv_wave bases counts nr nc (SVM (ARange nr) (ARange (List.length csubs)) D) rsubs csubs rd cd nosub SVErr) e) nr (List.length csubs)
+        (fun i l => wave_col_cell bases counts cd (nth l csubs nosub) (D i l) i)
+  | None => True
+  end) /\
+  (match src_WaveDiffSubtotal__subtotal_rows with
+  | Some e => forall bases counts nr nc rsubs csubs rd cd D,
+      subs_in nr rsubs ->
+      sagrees_mat (seval (senv_wave bases counts nr nc (SVM (ARange (List.length rsubs)) (ARange nc) D) rsubs csubs rd cd nosub SVErr) e) (List.length rsubs) nc
+        (fun k j => wave_row_cell bases counts rd (nth k rsubs nosub) (D k j) j)
+  | None => True
+  end) /\
+  (match src_WaveDiffSubtotal_subtotal_columns with
+  | Some e => forall cubem nr nc rsubs csubs rd cd bc ba cc ca D,
+      subs_in nc csubs ->
+      sagrees_mat (seval (senv_wave (cubem bc ba) (cubem cc ca) nr nc (SVM (ARange nr) (ARange (List.length csubs)) D) rsubs csubs rd cd nosub SVErr) e) nr (List.length csubs)
+        (wave_std cubem rsubs csubs rd cd AxCols bc ba cc ca D)
+  | None => True
+  end) /\
+  (match src_WaveDiffSubtotal_subtotal_rows with
+  | Some e => forall cubem nr nc rsubs csubs rd cd bc ba cc ca D,
+      subs_in nr rsubs ->
+      sagrees_mat (seval (senv_wave (cubem bc ba) (cubem cc ca) nr nc (SVM (ARange (List.length rsubs)) (ARange nc) D) rsubs csubs rd cd nosub SVErr) e) (List.length rsubs) nc
+        (wave_std cubem rsubs csubs rd cd AxRows bc ba cc ca D)
+  | None => True
+  end).
+Proof. exact (conj gen_WaveDiffSubtotal__multiple_subtrahends_or_addends (conj gen_WaveDiffSubtotal__subtotal_column (conj gen_WaveDiffSubtotal__subtotal_row (conj gen_WaveDiffSubtotal__subtotal_columns (conj gen_WaveDiffSubtotal__subtotal_rows (conj gen_WaveDiffSubtotal_subtotal_columns (gen_WaveDiffSubtotal_subtotal_rows))))))). Qed.
+Print Assumptions C03_gen_WaveDiffSubtotal.
+
+(* stripe WaveDiffSubtotals = [strand_wave_value] = [vwave_std] *)
+Theorem C03_gen_stripe_WaveDiffSubtotals :
+  (match ssrc_WaveDiffSubtotals__multiple_subtrahends_or_addends with
+  | Some e => forall bases counts n dflts subs rd s dflt,
+      keval (senv_swave bases counts n dflts subs rd s dflt) e = multiple_terms s
+  | None => True
+  end) /\
+  (match ssrc_WaveDiffSubtotals__subtotal_value with
+  | Some e => forall bases counts n dflts subs rd s d,
+      sub_in n s ->
+      sagrees_scal (seval (senv_swave bases counts n dflts subs rd s (SVS d)) e) (strand_wave_value counts bases true s d)
+  | None => True
+  end) /\
+  (match ssrc_WaveDiffSubtotals__subtotal_values with
+  | Some e => forall bases counts n subs rd D,
+      subs_in n subs ->
+      sagrees_vec (seval (senv_swave bases counts n (SVV (ARange (List.length subs)) D) subs rd nosub SVErr) e) (List.length subs)
+        (fun k => strand_wave_value counts bases rd (nth k subs nosub) (D k))
+  | None => True
+  end) /\
+  (match ssrc_WaveDiffSubtotals_subtotal_values with
+  | Some e => forall cubel n subs rd bc ba cc ca D,
+      subs_in n subs ->
+      sagrees_vec (seval (senv_swave (cubel bc ba) (cubel cc ca) n (SVV (ARange (List.length subs)) D) subs rd nosub SVErr) e) (List.length subs)
+        (vwave_std cubel subs rd bc ba cc ca D)
+  | None => True
+  end).
+Proof. exact (conj gen_stripe_WaveDiffSubtotals__multiple_subtrahends_or_addends (conj gen_stripe_WaveDiffSubtotals__subtotal_value (conj gen_stripe_WaveDiffSubtotals__subtotal_values (gen_stripe_WaveDiffSubtotals_subtotal_values)))). Qed.
+Print Assumptions C03_gen_stripe_WaveDiffSubtotals.
+
+(* non-vacuity: counts [[1 3]], bases [[2 4]] on a categorical-date columns dimension, one
+   difference column 1 - 0: the translated WaveDiffSubtotal.subtotal_columns gives 3/4 - 1/2 = 1/4 *)
+Example C03_gen_sub_example :
+  match src_WaveDiffSubtotal_subtotal_columns with
+  | Some e =>
+      match seval (senv_wave [[Fin 2%Q; Fin 4%Q]] [[Fin 1%Q; Fin 3%Q]] 1 2
+                             (SVM (ARange 1) (ARange 1) (fun _ _ => Fin 7%Q))
+                             [] [mkSub [1] [0]] false true nosub SVErr) e with
+      | SVM (ARange 1) (ARange 1) f => f 0 0 =x= Fin (Qmake 1 4)
+      | _ => False
+      end
+  | None => True
+  end.
+Proof. vm_compute. first [exact I | reflexivity]. Qed.
+
+End GenAgreeSubtotals_C03.
